@@ -30,8 +30,9 @@ import (
 )
 
 type varInfo struct {
-	coq string
-	opt bool // Coq type is option _
+	coq  string
+	opt  bool // Coq type is option _
+	lit0 bool // known to be the literal 0 here (n := 0 just before a counting loop)
 }
 
 type fnCfg struct {
@@ -45,6 +46,10 @@ type fnCfg struct {
 	partial bool            // body may panic: results wrapped in Ok, index failure = Err EPanic
 	elem    bool            // receiver slice indexed only by the int parameters: recv[i] is a_i
 	noCis   bool
+	lit     *ast.FuncLit // translate this function literal instead of the declaration named key
+	litRecv string       // the slice the literal's int parameters index (elem mode)
+	chk     bool         // also emit <name>_chk : res _, the same function with element reads X[i] that may panic
+	binders []string     // (out) the binders of the definition
 }
 
 type T struct {
@@ -54,6 +59,8 @@ type T struct {
 	rcv     string
 	recs    map[string]map[string]string // local struct values built from a composite literal: field -> term
 	idxElem map[string]string            // "X[i]" inside a normalised index loop -> element variable
+	nfresh  int
+	count   string // set by the caller of loop: the index variable is a counter that stays visible
 	g       *G
 }
 
@@ -63,6 +70,7 @@ type G struct {
 	done  map[string]bool
 	defs  []string
 	stack map[string]bool
+	noCis bool // the function being translated takes no cis: neither do its helpers
 }
 
 var childFields = map[string]string{"ID": "(c_id %s)", "Version": "(c_version %s)", "ChangesetID": "(c_changeset %s)",
@@ -417,6 +425,7 @@ type kont struct {
 	fall func() (string, error) // falling off the end of the block
 	brk  string                 // "" = break not allowed
 	cont string
+	ret  func(v string) string  // inside a loop: the state that ends the loop with result v (nil = plain return)
 }
 
 func (t *T) ret(v string, opt bool) string {
@@ -464,37 +473,42 @@ func (t *T) block(l []ast.Stmt, k kont) (string, error) {
 		return k.fall()
 	}
 	rest := func() (string, error) { return t.block(l[1:], k) }
+	if t.cfg.partial {
+		// X[i] read by a return / assignment / declaration of a function that may panic: the read is
+		// bound first (out of range = panic), the statement then uses the element
+		ix, err := t.indexRead(l[0])
+		if err != nil {
+			return "", err
+		}
+		if ix != nil {
+			xs, _, err := t.expr(ix.X)
+			if err != nil {
+				return "", err
+			}
+			i, _, err := t.expr(ix.Index)
+			if err != nil {
+				return "", err
+			}
+			t.nfresh++
+			name := fmt.Sprintf("v_ix%d_", t.nfresh)
+			old := t.idxElem
+			t.idxElem = map[string]string{}
+			for k2, v := range old {
+				t.idxElem[k2] = v
+			}
+			t.idxElem[t.src(ix)] = name
+			body, err := t.block(l[:1], kont{fall: func() (string, error) { t.idxElem = old; return t.block(l[1:], k) }, brk: k.brk, cont: k.cont, ret: k.ret})
+			t.idxElem = old
+			if err != nil {
+				return "", err
+			}
+			return fmt.Sprintf("match get_at %s %s with\n  | Some %s =>\n  %s\n  | None => Err EPanic\n  end", xs, i, name, body), nil
+		}
+	}
 	switch s := l[0].(type) {
 	case *ast.ReturnStmt:
 		if len(s.Results) != 1 {
 			return "", t.errf(s, "return with %d results", len(s.Results))
-		}
-		// child[len(child)-1].F : the only place that may panic
-		if be, ok := s.Results[0].(*ast.BinaryExpr); ok && t.cfg.partial {
-			if se, ok := be.X.(*ast.SelectorExpr); ok {
-				if ix, ok := se.X.(*ast.IndexExpr); ok {
-					xs, _, err := t.expr(ix.X)
-					if err != nil {
-						return "", err
-					}
-					i, _, err := t.expr(ix.Index)
-					if err != nil {
-						return "", err
-					}
-					t.env["el_"] = &varInfo{coq: "el_"}
-					fld := fmt.Sprintf(childFields[se.Sel.Name], "el_")
-					delete(t.env, "el_")
-					y, _, err := t.expr(be.Y)
-					if err != nil {
-						return "", err
-					}
-					op := map[token.Token]string{token.ADD: "Z.add", token.SUB: "Z.sub"}[be.Op]
-					if op == "" || named(t.p.Info.Types[ix].Type) != "Child" {
-						return "", t.errf(s, "unsupported indexed return")
-					}
-					return fmt.Sprintf("match get_at %s %s with\n  | Some el_ => Ok (%s %s %s)\n  | None => Err EPanic\n  end", xs, i, op, fld, y), nil
-				}
-			}
 		}
 		if id, ok := s.Results[0].(*ast.Ident); ok {
 			if rec, ok := t.recs[id.Name]; ok {
@@ -502,12 +516,18 @@ func (t *T) block(l []ast.Stmt, k kont) (string, error) {
 				if err != nil {
 					return "", err
 				}
+				if k.ret != nil {
+					return k.ret(t.ret(v, false)), nil
+				}
 				return t.ret(v, false), nil
 			}
 		}
 		v, opt, err := t.expr(s.Results[0])
 		if err != nil {
 			return "", err
+		}
+		if k.ret != nil {
+			return k.ret(t.ret(v, opt)), nil
 		}
 		return t.ret(v, opt), nil
 	case *ast.SwitchStmt:
@@ -548,6 +568,24 @@ func (t *T) block(l []ast.Stmt, k kont) (string, error) {
 			return t.block(append(append([]ast.Stmt{}, b.List...), l[1:]...), k)
 		}
 		return t.block(append([]ast.Stmt{chain}, l[1:]...), k)
+	case *ast.IncDecStmt:
+		// n++ / n--  on an integer local
+		id, ok := s.X.(*ast.Ident)
+		if !ok {
+			return "", t.errf(s, "unsupported increment target")
+		}
+		vi, ok := t.env[id.Name]
+		if !ok || vi.opt {
+			return "", t.errf(s, "increment of unknown %s", id.Name)
+		}
+		op := "Z.add"
+		if s.Tok == token.DEC {
+			op = "Z.sub"
+		}
+		v := fmt.Sprintf("(%s %s 1)", op, vi.coq)
+		t.env[id.Name] = &varInfo{coq: vi.coq}
+		r, err := rest()
+		return fmt.Sprintf("let %s := %s in\n  %s", vi.coq, v, r), err
 	case *ast.BranchStmt:
 		if s.Label == nil && s.Tok == token.BREAK && k.brk != "" {
 			return k.brk, nil
@@ -578,7 +616,7 @@ func (t *T) block(l []ast.Stmt, k kont) (string, error) {
 					}
 					val = v
 				}
-				t.env[n.Name] = &varInfo{coq: "v_" + n.Name, opt: isPtr}
+				t.env[n.Name] = &varInfo{coq: "v_" + n.Name, opt: isPtr, lit0: val == "0"}
 				out += fmt.Sprintf("let v_%s := %s in\n  ", n.Name, val)
 			}
 		}
@@ -637,7 +675,7 @@ func (t *T) block(l []ast.Stmt, k kont) (string, error) {
 			return "", err
 		}
 		if s.Tok == token.DEFINE {
-			t.env[id.Name] = &varInfo{coq: "v_" + id.Name, opt: opt}
+			t.env[id.Name] = &varInfo{coq: "v_" + id.Name, opt: opt, lit0: t.src(s.Rhs[0]) == "0"}
 		} else if s.Tok == token.ASSIGN {
 			vi, ok := t.env[id.Name]
 			if !ok {
@@ -675,7 +713,7 @@ func (t *T) block(l []ast.Stmt, k kont) (string, error) {
 			for k, v := range e0 {
 				t.env[k] = v
 			}
-			return t.block(l2, kont{fall: rest, brk: k.brk, cont: k.cont})
+			return t.block(l2, kont{fall: rest, brk: k.brk, cont: k.cont, ret: k.ret})
 		}
 		var elseL []ast.Stmt
 		switch x := s.Else.(type) {
@@ -695,18 +733,18 @@ func (t *T) block(l []ast.Stmt, k kont) (string, error) {
 			if nonNil {
 				someB, err = t.withRefinedEnv(e0, name, func() (string, error) {
 					if c2 == nil {
-						return t.block(s.Body.List, kont{fall: rest, brk: k.brk, cont: k.cont})
+						return t.block(s.Body.List, kont{fall: rest, brk: k.brk, cont: k.cont, ret: k.ret})
 					}
 					c, _, err := t.expr(c2)
 					if err != nil {
 						return "", err
 					}
-					a, err := t.block(s.Body.List, kont{fall: rest, brk: k.brk, cont: k.cont})
+					a, err := t.block(s.Body.List, kont{fall: rest, brk: k.brk, cont: k.cont, ret: k.ret})
 					if err != nil {
 						return "", err
 					}
 					t.resetEnv(e0, name)
-					b, err := t.block(elseL, kont{fall: rest, brk: k.brk, cont: k.cont})
+					b, err := t.block(elseL, kont{fall: rest, brk: k.brk, cont: k.cont, ret: k.ret})
 					if err != nil {
 						return "", err
 					}
@@ -725,7 +763,7 @@ func (t *T) block(l []ast.Stmt, k kont) (string, error) {
 					return "", err
 				}
 				someB, err = t.withRefinedEnv(e0, name, func() (string, error) {
-					return t.block(elseL, kont{fall: rest, brk: k.brk, cont: k.cont})
+					return t.block(elseL, kont{fall: rest, brk: k.brk, cont: k.cont, ret: k.ret})
 				})
 			}
 			if err != nil {
@@ -762,14 +800,43 @@ func (t *T) block(l []ast.Stmt, k kont) (string, error) {
 		}
 		switch {
 		case val != nil && (key == nil || key.Name == "_"):
-			return t.loop(s.X, val.Name, "", s.Body, nil, k, rest)
+			return t.loop(s, l[1:], s.X, val.Name, "", s.Body, nil, k, rest)
 		case val == nil && key != nil && key.Name != "_":
 			// for i := range X { ... X[i] ... }
-			return t.loop(s.X, "", key.Name, s.Body, nil, k, rest)
+			return t.loop(s, l[1:], s.X, "", key.Name, s.Body, nil, k, rest)
 		}
 		return t.errfS(s, "range with both index and value")
 	case *ast.ForStmt:
 		// for i := 0; i < len(X) [&& C]; i++ { ... X[i] ... }   =   for _, el := range X { if !C { break }; ... }
+		if s.Init == nil && s.Post == nil && s.Cond != nil {
+			// n := 0; for n < len(X) [&& C] { ...X[n]...; n++ }  : the index loop whose counter stays visible
+			cond := s.Cond
+			var extra ast.Expr
+			if b, ok := cond.(*ast.BinaryExpr); ok && b.Op == token.LAND {
+				cond, extra = b.X, b.Y
+			}
+			b, ok := cond.(*ast.BinaryExpr)
+			if !ok || b.Op != token.LSS {
+				return t.errfS(s, "unsupported for loop (condition)")
+			}
+			cnt, ok := b.X.(*ast.Ident)
+			if !ok || t.env[cnt.Name] == nil || !t.env[cnt.Name].lit0 {
+				return t.errfS(s, "unsupported for loop (the counter is not known to start at 0)")
+			}
+			call, ok := b.Y.(*ast.CallExpr)
+			if !ok || t.src(call.Fun) != "len" || len(call.Args) != 1 {
+				return t.errfS(s, "unsupported for loop (bound)")
+			}
+			if len(s.Body.List) == 0 {
+				return t.errfS(s, "unsupported for loop (empty body)")
+			}
+			inc, ok := s.Body.List[len(s.Body.List)-1].(*ast.IncDecStmt)
+			if !ok || inc.Tok != token.INC || t.src(inc.X) != cnt.Name {
+				return t.errfS(s, "unsupported for loop (the body does not end with the increment)")
+			}
+			t.count = cnt.Name
+			return t.loop(s, l[1:], call.Args[0], "", cnt.Name, &ast.BlockStmt{Lbrace: s.Body.Lbrace, List: s.Body.List[:len(s.Body.List)-1], Rbrace: s.Body.Rbrace}, extra, k, rest)
+		}
 		as, ok := s.Init.(*ast.AssignStmt)
 		if !ok || as.Tok != token.DEFINE || len(as.Lhs) != 1 || t.src(as.Rhs[0]) != "0" {
 			return t.errfS(s, "unsupported for loop (init)")
@@ -791,9 +858,75 @@ func (t *T) block(l []ast.Stmt, k kont) (string, error) {
 		if !ok || t.src(call.Fun) != "len" || len(call.Args) != 1 {
 			return t.errfS(s, "unsupported for loop (bound)")
 		}
-		return t.loop(call.Args[0], "", iv, s.Body, extra, k, rest)
+		return t.loop(s, l[1:], call.Args[0], "", iv, s.Body, extra, k, rest)
 	}
 	return "", t.errf(l[0], "unsupported statement %T", l[0])
+}
+
+// indexRead finds an element read X[i] of a child list in the expressions of a simple statement
+// (return, assignment, declaration) that is not yet bound to a variable.  A read on the right of
+// && / || is not evaluated unconditionally and is refused.
+func (t *T) indexRead(st ast.Stmt) (*ast.IndexExpr, error) {
+	var exprs []ast.Expr
+	switch s := st.(type) {
+	case *ast.ReturnStmt:
+		exprs = s.Results
+	case *ast.AssignStmt:
+		exprs = s.Rhs
+	case *ast.DeclStmt:
+		if gd, ok := s.Decl.(*ast.GenDecl); ok {
+			for _, sp := range gd.Specs {
+				if vs, ok := sp.(*ast.ValueSpec); ok {
+					exprs = append(exprs, vs.Values...)
+				}
+			}
+		}
+	default:
+		return nil, nil
+	}
+	var found *ast.IndexExpr
+	guarded := map[ast.Node]bool{}
+	var bad ast.Node
+	for _, e := range exprs {
+		ast.Inspect(e, func(n ast.Node) bool {
+			if n == nil {
+				return true
+			}
+			if _, ok := n.(*ast.FuncLit); ok {
+				return false
+			}
+			if b, ok := n.(*ast.BinaryExpr); ok && (b.Op == token.LAND || b.Op == token.LOR) {
+				ast.Inspect(b.Y, func(m ast.Node) bool {
+					if m != nil {
+						guarded[m] = true
+					}
+					return true
+				})
+			}
+			ix, ok := n.(*ast.IndexExpr)
+			if !ok {
+				return true
+			}
+			if _, known := t.idxElem[t.src(ix)]; known {
+				return false
+			}
+			if named(t.p.Info.Types[ix].Type) != "Child" {
+				return true
+			}
+			if guarded[ix] {
+				bad = ix
+				return false
+			}
+			if found == nil {
+				found = ix
+			}
+			return false
+		})
+	}
+	if bad != nil {
+		return nil, t.errf(bad, "element read under && / ||: %s", t.src(bad))
+	}
+	return found, nil
 }
 
 func (t *T) errfS(n ast.Node, f string, a ...interface{}) (string, error) {
@@ -803,12 +936,22 @@ func (t *T) errfS(n ast.Node, f string, a ...interface{}) (string, error) {
 // loop renders a loop over the elements of xsE as a fold_left over (assigned variables, done).
 // elName: the Go element variable (range with value); idxName: the Go index variable of an index
 // loop, in which X[idx] denotes the element; guard: an extra loop condition (false = break).
-func (t *T) loop(xsE ast.Expr, elName, idxName string, body *ast.BlockStmt, guard ast.Expr, k kont, rest func() (string, error)) (string, error) {
+func (t *T) loop(loopStmt ast.Stmt, after []ast.Stmt, xsE ast.Expr, elName, idxName string, body *ast.BlockStmt, guard ast.Expr, k kont, rest func() (string, error)) (string, error) {
 	xs, _, err := t.expr(xsE)
 	if err != nil {
 		return "", err
 	}
+	count := t.count
+	t.count = ""
 	vars := t.assigned(body)
+	if count != "" {
+		for _, v := range vars {
+			if v == count {
+				return "", t.errf(body, "the counter %s is assigned in the loop body", count)
+			}
+		}
+		vars = append(vars, count)
+	}
 	var names, tys []string
 	for _, v := range vars {
 		names = append(names, t.env[v].coq)
@@ -818,9 +961,67 @@ func (t *T) loop(xsE ast.Expr, elName, idxName string, body *ast.BlockStmt, guar
 			tys = append(tys, "Z")
 		}
 	}
+	// `return E` inside the loop body
+	var rets []*ast.ReturnStmt
+	ast.Inspect(body, func(n ast.Node) bool {
+		if _, ok := n.(*ast.FuncLit); ok {
+			return false
+		}
+		if r, ok := n.(*ast.ReturnStmt); ok {
+			rets = append(rets, r)
+		}
+		return true
+	})
+	retAsBreak := false
+	if len(rets) > 0 && len(after) == 1 {
+		// the loop is followed by `return E` and every return inside it is the same `return E`, E not
+		// mentioning anything declared inside the loop: returning from inside is leaving the loop
+		if tail, ok := after[0].(*ast.ReturnStmt); ok && len(tail.Results) == 1 {
+			retAsBreak = true
+			for _, r := range rets {
+				if len(r.Results) != 1 || t.src(r.Results[0]) != t.src(tail.Results[0]) {
+					retAsBreak = false
+					break
+				}
+				ast.Inspect(r.Results[0], func(n ast.Node) bool {
+					if id, ok := n.(*ast.Ident); ok {
+						if obj := t.p.Info.Uses[id]; obj != nil && obj.Pos() >= loopStmt.Pos() && obj.Pos() <= loopStmt.End() {
+							retAsBreak = false
+						}
+					}
+					return true
+				})
+			}
+		}
+	}
+	retSlot := len(rets) > 0 && !retAsBreak
+	retName := ""
+	if retSlot {
+		t.nfresh++
+		retName = fmt.Sprintf("ret%d_", t.nfresh)
+		names = append(names, retName)
+		tys = append(tys, "option ("+t.cfg.result+")")
+	}
 	tys = append(tys, "bool")
 	st := func(done string) string {
 		return "(" + strings.Join(append(append([]string{}, names...), done), ", ") + ")"
+	}
+	st0 := func() string {
+		ns := append([]string{}, names...)
+		if retSlot {
+			ns[len(ns)-1] = "None"
+		}
+		return "(" + strings.Join(append(ns, "false"), ", ") + ")"
+	}
+	var retK func(v string) string
+	switch {
+	case retAsBreak:
+		retK = func(string) string { return st("true") }
+	case retSlot:
+		retK = func(v string) string {
+			ns := append([]string{}, names[:len(names)-1]...)
+			return "(" + strings.Join(append(ns, "(Some "+v+")", "true"), ", ") + ")"
+		}
 	}
 	e0 := map[string]*varInfo{}
 	for k2, v := range t.env {
@@ -858,17 +1059,40 @@ func (t *T) loop(xsE ast.Expr, elName, idxName string, body *ast.BlockStmt, guar
 		stmts = append([]ast.Stmt{&ast.IfStmt{Cond: &ast.UnaryExpr{Op: token.NOT, X: &ast.ParenExpr{X: guard}},
 			Body: &ast.BlockStmt{List: []ast.Stmt{&ast.BranchStmt{Tok: token.BREAK}}}}}, stmts...)
 	}
-	bodyT, err := t.block(stmts, kont{fall: func() (string, error) { return st("false"), nil }, brk: st("true"), cont: st("false")})
+	fallSt, contSt := st("false"), st("false")
+	if count != "" {
+		// one more element done; `continue` would skip the increment
+		cn := e0[count].coq
+		fallSt = fmt.Sprintf("let %s := (Z.add %s 1) in %s", cn, cn, st("false"))
+		contSt = ""
+	}
+	bodyT, err := t.block(stmts, kont{fall: func() (string, error) { return fallSt, nil }, brk: st("true"), cont: contSt, ret: retK})
 	if err != nil {
 		return "", err
 	}
-	t.env = e0
+	t.env = map[string]*varInfo{}
+	for k2, v := range e0 {
+		t.env[k2] = v
+	}
+	for _, v := range vars {
+		c := *e0[v]
+		c.lit0 = false
+		t.env[v] = &c
+	}
 	r, err := rest()
 	if err != nil {
 		return "", err
 	}
+	if retSlot {
+		// a result set inside the loop is the function's result (or ends the enclosing loop with it)
+		out := "r_"
+		if k.ret != nil {
+			out = k.ret("r_")
+		}
+		r = fmt.Sprintf("match %s with\n  | Some r_ => %s\n  | None =>\n  %s\n  end", retName, out, r)
+	}
 	return fmt.Sprintf("let '%s := fold_left (fun (st_ : %s) (%s : child) => let '%s := st_ in if done_ then %s else\n  %s) %s %s in\n  %s",
-		st("_"), strings.Join(tys, " * "), el, st("done_"), st("true"), bodyT, xs, st("false"), r), nil
+		st("_"), strings.Join(tys, " * "), el, st("done_"), st("true"), bodyT, xs, st0(), r), nil
 }
 
 var errNoHelper = fmt.Errorf("not a helper")
@@ -881,11 +1105,14 @@ func (g *G) helper(name string) ([3]string, error) {
 	}
 	coq := "gen_h_" + name
 	entry := [3]string{coq, "cis", ""}
+	if g.noCis {
+		entry[1] = ""
+	}
 	if fd.Type.Results == nil || len(fd.Type.Results.List) != 1 {
 		return entry, fmt.Errorf("helper %s: unsupported result list", name)
 	}
 	rt := g.p.Info.Types[fd.Type.Results.List[0].Type].Type
-	cfg := &fnCfg{key: name, name: coq}
+	cfg := &fnCfg{key: name, name: coq, noCis: g.noCis}
 	switch {
 	case named(rt) == "Child":
 		cfg.result, cfg.optRes = "option child", true
@@ -935,11 +1162,15 @@ func (t *T) withRefinedEnv(e0 map[string]*varInfo, name string, f func() (string
 func (t *T) assigned(b *ast.BlockStmt) []string {
 	set := map[string]token.Pos{}
 	ast.Inspect(b, func(n ast.Node) bool {
-		as, ok := n.(*ast.AssignStmt)
-		if !ok || as.Tok != token.ASSIGN {
-			return true
+		var targets []ast.Expr
+		if inc, ok := n.(*ast.IncDecStmt); ok {
+			targets = []ast.Expr{inc.X}
 		}
-		for _, lhs := range as.Lhs {
+		as, ok := n.(*ast.AssignStmt)
+		if ok && as.Tok == token.ASSIGN {
+			targets = as.Lhs
+		}
+		for _, lhs := range targets {
 			if id, ok := lhs.(*ast.Ident); ok {
 				if obj := t.p.Info.Uses[id]; obj != nil && (obj.Pos() < b.Pos() || obj.Pos() > b.End()) {
 					if _, known := t.env[id.Name]; known {
@@ -959,7 +1190,7 @@ func (t *T) assigned(b *ast.BlockStmt) []string {
 }
 
 func translate(p *tr.Pkg, cfg *fnCfg) (string, error) {
-	g := &G{p: p, done: map[string]bool{}, stack: map[string]bool{}}
+	g := &G{p: p, done: map[string]bool{}, stack: map[string]bool{}, noCis: cfg.noCis}
 	def, err := translateIn(g, cfg)
 	if err != nil {
 		return "", err
@@ -984,6 +1215,8 @@ func coqTypeOf(ty types.Type, opt bool) (string, error) {
 		return "opts", nil
 	case "ChildList":
 		return "list child", nil
+	case "Update":
+		return "update", nil
 	}
 	if isTime(ty) {
 		return "Z", nil
@@ -1001,17 +1234,28 @@ func coqTypeOf(ty types.Type, opt bool) (string, error) {
 
 func translateIn(g *G, cfg *fnCfg) (string, error) {
 	p := g.p
-	fd := p.FuncDecls()[cfg.key]
-	if fd == nil {
-		return "", fmt.Errorf("%s: not found in source", cfg.key)
+	var recv *ast.FieldList
+	var ftype *ast.FuncType
+	var fbody *ast.BlockStmt
+	if cfg.lit != nil {
+		ftype, fbody = cfg.lit.Type, cfg.lit.Body
+	} else {
+		fd := p.FuncDecls()[cfg.key]
+		if fd == nil || fd.Body == nil {
+			return "", fmt.Errorf("%s: not found in source", cfg.key)
+		}
+		recv, ftype, fbody = fd.Recv, fd.Type, fd.Body
 	}
 	t := &T{p: p, cfg: cfg, env: map[string]*varInfo{}, recs: map[string]map[string]string{}, idxElem: map[string]string{}, g: g}
 	var binders []string
-	if fd.Recv != nil && len(fd.Recv.List) == 1 && len(fd.Recv.List[0].Names) == 1 {
-		t.rcv = fd.Recv.List[0].Names[0].Name
+	if cfg.lit != nil {
+		t.rcv = cfg.litRecv
+	}
+	if recv != nil && len(recv.List) == 1 && len(recv.List[0].Names) == 1 {
+		t.rcv = recv.List[0].Names[0].Name
 		t.env[t.rcv] = &varInfo{coq: "v_" + t.rcv}
 		if !cfg.elem {
-			ct, err := coqTypeOf(p.Info.Defs[fd.Recv.List[0].Names[0]].Type(), false)
+			ct, err := coqTypeOf(p.Info.Defs[recv.List[0].Names[0]].Type(), false)
 			if err != nil {
 				return "", fmt.Errorf("%s: %v", cfg.key, err)
 			}
@@ -1019,7 +1263,7 @@ func translateIn(g *G, cfg *fnCfg) (string, error) {
 		}
 	}
 	pos := 0
-	for _, f := range fd.Type.Params.List {
+	for _, f := range ftype.Params.List {
 		for _, n := range f.Names {
 			opt := cfg.optIdx[pos]
 			pos++
@@ -1036,10 +1280,11 @@ func translateIn(g *G, cfg *fnCfg) (string, error) {
 			binders = append(binders, fmt.Sprintf("(v_%s : %s)", n.Name, ct))
 		}
 	}
-	body, err := t.block(fd.Body.List, kont{fall: func() (string, error) { return "", fmt.Errorf("%s: control falls off the end", cfg.key) }})
+	body, err := t.block(fbody.List, kont{fall: func() (string, error) { return "", fmt.Errorf("%s: control falls off the end", cfg.key) }})
 	if err != nil {
 		return "", err
 	}
+	cfg.binders = binders
 	cis := "(cis : Z) "
 	if cfg.noCis {
 		cis = ""
@@ -1088,44 +1333,129 @@ func setChild(p *tr.Pkg, key, name string) (string, error) {
 	fields := map[string]string{}
 	var skipped []string
 	nilGuard := false
-	for _, st := range fd.Body.List {
+	target := ""               // the list whose element idx is written (source text)
+	alias := map[string]bool{} // locals bound by  m := &X[idx]
+	isBareReturn := func(b *ast.BlockStmt) bool {
+		if len(b.List) != 1 {
+			return false
+		}
+		r, ok := b.List[0].(*ast.ReturnStmt)
+		return ok && len(r.Results) == 0
+	}
+	onlyWaysStmt := func(st ast.Stmt) bool {
 		switch x := st.(type) {
 		case *ast.IfStmt:
-			if src(x.Cond) == child+" == nil" && len(x.Body.List) == 1 && x.Else == nil {
-				if r, ok := x.Body.List[0].(*ast.ReturnStmt); ok && len(r.Results) == 0 {
+			return onlyWays(x)
+		case *ast.AssignStmt:
+			return onlyWays(x)
+		}
+		return false
+	}
+	// elemOf recognises X[idx] / an alias of &X[idx]
+	elemOf := func(e ast.Expr) bool {
+		switch x := e.(type) {
+		case *ast.ParenExpr:
+			if st, ok := x.X.(*ast.StarExpr); ok {
+				if id, ok := st.X.(*ast.Ident); ok {
+					return alias[id.Name]
+				}
+			}
+		case *ast.Ident:
+			return alias[x.Name]
+		case *ast.IndexExpr:
+			if src(x.Index) != idx {
+				return false
+			}
+			if target == "" {
+				target = src(x.X)
+			}
+			return target == src(x.X)
+		}
+		return false
+	}
+	var process func(l []ast.Stmt) error
+	process = func(l []ast.Stmt) error {
+		for n, st := range l {
+			switch x := st.(type) {
+			case *ast.IfStmt:
+				if x.Init == nil && src(x.Cond) == child+" == nil" && x.Else == nil && isBareReturn(x.Body) {
 					nilGuard = true
 					continue
 				}
+				if x.Init == nil && src(x.Cond) == child+" != nil" && x.Else == nil && n == len(l)-1 && !nilGuard {
+					// if child != nil { ... } as the last statement = guard + body
+					nilGuard = true
+					if err := process(x.Body.List); err != nil {
+						return err
+					}
+					continue
+				}
+				if onlyWays(x) {
+					skipped = append(skipped, src(x.Cond))
+					continue
+				}
+				if x.Init == nil && x.Else == nil && isBareReturn(x.Body) {
+					// if C { return } followed only by way-cache statements: all of it is the way cache
+					all := true
+					for _, r := range l[n+1:] {
+						all = all && onlyWaysStmt(r)
+					}
+					if all {
+						skipped = append(skipped, src(x.Cond)+" { return } ...")
+						return nil
+					}
+				}
+				return fmt.Errorf("%s: %s: unsupported if statement", key, p.Pos(x))
+			case *ast.AssignStmt:
+				if len(x.Lhs) != 1 || len(x.Rhs) != 1 {
+					return fmt.Errorf("%s: %s: unsupported assignment", key, p.Pos(x))
+				}
+				if x.Tok == token.DEFINE {
+					// m := &X[idx]
+					id, ok1 := x.Lhs[0].(*ast.Ident)
+					u, ok2 := x.Rhs[0].(*ast.UnaryExpr)
+					if ok1 && ok2 && u.Op == token.AND && !alias[id.Name] {
+						if _, isIx := u.X.(*ast.IndexExpr); isIx && elemOf(u.X) {
+							alias[id.Name] = true
+							continue
+						}
+					}
+					return fmt.Errorf("%s: %s: unsupported definition", key, p.Pos(x))
+				}
+				if x.Tok != token.ASSIGN {
+					return fmt.Errorf("%s: %s: unsupported assignment", key, p.Pos(x))
+				}
+				if onlyWays(x) {
+					skipped = append(skipped, src(x))
+					continue
+				}
+				if !nilGuard {
+					return fmt.Errorf("%s: %s: assignment before the nil guard", key, p.Pos(x))
+				}
+				lsel, ok1 := x.Lhs[0].(*ast.SelectorExpr)
+				rsel, ok2 := x.Rhs[0].(*ast.SelectorExpr)
+				if !ok1 || !ok2 {
+					return fmt.Errorf("%s: %s: unsupported assignment form", key, p.Pos(x))
+				}
+				if !elemOf(lsel.X) || src(rsel.X) != child {
+					return fmt.Errorf("%s: %s: unsupported assignment form", key, p.Pos(x))
+				}
+				cf, ok := childFields[rsel.Sel.Name]
+				if !ok {
+					return fmt.Errorf("%s: %s: child field %s is not modelled", key, p.Pos(x), rsel.Sel.Name)
+				}
+				fields[lsel.Sel.Name] = fmt.Sprintf(cf, "c")
+			default:
+				return fmt.Errorf("%s: %s: unsupported statement", key, p.Pos(st))
 			}
-			if onlyWays(x) {
-				skipped = append(skipped, src(x.Cond))
-				continue
-			}
-			return "", fmt.Errorf("%s: %s: unsupported if statement", key, p.Pos(x))
-		case *ast.AssignStmt:
-			if len(x.Lhs) != 1 || len(x.Rhs) != 1 || x.Tok != token.ASSIGN {
-				return "", fmt.Errorf("%s: %s: unsupported assignment", key, p.Pos(x))
-			}
-			if !nilGuard {
-				return "", fmt.Errorf("%s: %s: assignment before the nil guard", key, p.Pos(x))
-			}
-			lsel, ok1 := x.Lhs[0].(*ast.SelectorExpr)
-			rsel, ok2 := x.Rhs[0].(*ast.SelectorExpr)
-			if !ok1 || !ok2 {
-				return "", fmt.Errorf("%s: %s: unsupported assignment form", key, p.Pos(x))
-			}
-			ix, ok := lsel.X.(*ast.IndexExpr)
-			if !ok || src(ix.Index) != idx || src(rsel.X) != child {
-				return "", fmt.Errorf("%s: %s: unsupported assignment form", key, p.Pos(x))
-			}
-			cf, ok := childFields[rsel.Sel.Name]
-			if !ok {
-				return "", fmt.Errorf("%s: %s: child field %s is not modelled", key, p.Pos(x), rsel.Sel.Name)
-			}
-			fields[lsel.Sel.Name] = fmt.Sprintf(cf, "c")
-		default:
-			return "", fmt.Errorf("%s: %s: unsupported statement", key, p.Pos(st))
 		}
+		return nil
+	}
+	if err := process(fd.Body.List); err != nil {
+		return "", err
+	}
+	if !nilGuard {
+		return "", fmt.Errorf("%s: no nil guard", key)
 	}
 	out := fmt.Sprintf("(* %s", key)
 	if len(skipped) > 0 {
@@ -1208,11 +1538,13 @@ func refsAnnotated(p *tr.Pkg, key, name string) (string, error) {
 		return strings.Join(strings.Fields(b.String()), " ")
 	}
 	var rhs ast.Expr
+	idxName := ""
 	n := 0
 	ast.Inspect(fd.Body, func(m ast.Node) bool {
 		if as, ok := m.(*ast.AssignStmt); ok && len(as.Lhs) == 1 && len(as.Rhs) == 1 {
 			if ix, ok := as.Lhs[0].(*ast.IndexExpr); ok && src(ix.X) == "annotated" {
 				rhs = as.Rhs[0]
+				idxName = src(ix.Index)
 				n++
 			}
 		}
@@ -1221,10 +1553,31 @@ func refsAnnotated(p *tr.Pkg, key, name string) (string, error) {
 	if n != 1 {
 		return "", fmt.Errorf("%s: expected exactly one assignment to annotated[i], found %d", key, n)
 	}
+	// the element: X[i] with the index of annotated[i], or the value variable of the range loop
+	// whose key is that index (for i, m := range X)
+	elemVars := map[string]bool{}
+	ast.Inspect(fd.Body, func(m ast.Node) bool {
+		if rs, ok := m.(*ast.RangeStmt); ok && rs.Key != nil && rs.Value != nil && src(rs.Key) == idxName {
+			if id, ok := rs.Value.(*ast.Ident); ok {
+				elemVars[id.Name] = true
+			}
+		}
+		return true
+	})
 	atoms := map[string]string{}
 	ast.Inspect(rhs, func(m ast.Node) bool {
 		if sel, ok := m.(*ast.SelectorExpr); ok {
-			if _, isIdx := sel.X.(*ast.IndexExpr); isIdx {
+			isElem := false
+			if ix, isIdx := sel.X.(*ast.IndexExpr); isIdx && src(ix.Index) == idxName {
+				isElem = true
+			}
+			if id, isId := sel.X.(*ast.Ident); isId && elemVars[id.Name] {
+				isElem = true
+			}
+			if tn := named(p.Info.Types[sel.X].Type); tn != "WayNode" && tn != "Member" {
+				isElem = false
+			}
+			if isElem {
 				if f, ok := map[string]string{"Version": "(r_version r)", "ChangesetID": "(r_changeset r)", "Lat": "(r_lat r)", "Lon": "(r_lon r)"}[sel.Sel.Name]; ok {
 					atoms[src(sel)] = f
 				}
@@ -1325,6 +1678,78 @@ func commitInfoStart(p *tr.Pkg) (string, error) {
 	return "", fmt.Errorf("CommitInfoStart not found")
 }
 
+// sortLess finds the order used by a sorting method: the body is one call, either
+//
+//	sort.Sort(T(us)) / sort.Stable(T(us))         -> T.Less (T's Len and Swap are the usual ones, checked)
+//	sort.Slice(us, func(i, j int) bool { ... })   -> the literal (also sort.SliceStable)
+//
+// (which sorting algorithm runs is irrelevant: the model takes any function that sorts by the order)
+func sortLess(p *tr.Pkg, key string) (*fnCfg, error) {
+	src := func(n ast.Node) string {
+		var b bytes.Buffer
+		printer.Fprint(&b, p.Fset, n)
+		return strings.Join(strings.Fields(b.String()), " ")
+	}
+	fd := p.FuncDecls()[key]
+	if fd == nil || fd.Body == nil || fd.Recv == nil || len(fd.Recv.List) != 1 || len(fd.Recv.List[0].Names) != 1 {
+		return nil, fmt.Errorf("%s: not found in source", key)
+	}
+	us := fd.Recv.List[0].Names[0].Name
+	if len(fd.Body.List) != 1 {
+		return nil, fmt.Errorf("%s: body is not a single call", key)
+	}
+	es, ok := fd.Body.List[0].(*ast.ExprStmt)
+	if !ok {
+		return nil, fmt.Errorf("%s: body is not a single call", key)
+	}
+	call, ok := es.X.(*ast.CallExpr)
+	if !ok {
+		return nil, fmt.Errorf("%s: body is not a single call", key)
+	}
+	switch src(call.Fun) {
+	case "sort.Sort", "sort.Stable":
+		if len(call.Args) == 1 {
+			if conv, ok := call.Args[0].(*ast.CallExpr); ok && len(conv.Args) == 1 && src(conv.Args[0]) == us {
+				if id, ok := conv.Fun.(*ast.Ident); ok {
+					decls := p.FuncDecls()
+					ln, sw := decls[id.Name+".Len"], decls[id.Name+".Swap"]
+					if ln == nil || sw == nil || ln.Recv == nil || sw.Recv == nil || len(sw.Type.Params.List) == 0 {
+						return nil, fmt.Errorf("%s: %s has no Len / Swap", key, id.Name)
+					}
+					r := ln.Recv.List[0].Names[0].Name
+					if len(ln.Body.List) != 1 || src(ln.Body.List[0]) != "return len("+r+")" {
+						return nil, fmt.Errorf("%s: %s.Len is not `return len(%s)`", key, id.Name, r)
+					}
+					r = sw.Recv.List[0].Names[0].Name
+					var ps []string
+					for _, f := range sw.Type.Params.List {
+						for _, n := range f.Names {
+							ps = append(ps, n.Name)
+						}
+					}
+					if len(ps) != 2 || len(sw.Body.List) != 1 {
+						return nil, fmt.Errorf("%s: %s.Swap is not the usual exchange", key, id.Name)
+					}
+					i, j := ps[0], ps[1]
+					want := fmt.Sprintf("%s[%s], %s[%s] = %s[%s], %s[%s]", r, i, r, j, r, j, r, i)
+					want2 := fmt.Sprintf("%s[%s], %s[%s] = %s[%s], %s[%s]", r, j, r, i, r, i, r, j)
+					if got := src(sw.Body.List[0]); got != want && got != want2 {
+						return nil, fmt.Errorf("%s: %s.Swap is not the usual exchange: %s", key, id.Name, got)
+					}
+					return &fnCfg{key: id.Name + ".Less"}, nil
+				}
+			}
+		}
+	case "sort.Slice", "sort.SliceStable":
+		if len(call.Args) == 2 && src(call.Args[0]) == us {
+			if lit, ok := call.Args[1].(*ast.FuncLit); ok {
+				return &fnCfg{key: key + " (order literal)", lit: lit, litRecv: us}, nil
+			}
+		}
+	}
+	return nil, fmt.Errorf("%s: unsupported sorting call %s", key, src(call))
+}
+
 func main() {
 	repo, out := os.Args[1], os.Args[2]
 	if err := os.Chdir(repo); err != nil {
@@ -1338,14 +1763,29 @@ func main() {
 		"Definition filter_is_some (f : option (Z -> bool)) : bool := match f with Some _ => true | None => false end.\n" +
 		"Definition filter_app (f : option (Z -> bool)) (x : Z) : bool := match f with Some g => g x | None => false end.\n\n")
 	failed := 0
-	emit := func(dir, path string, fns []*fnCfg) *tr.Pkg {
-		p, err := tr.Load(filepath.Join(repo, dir), path)
-		if err != nil {
-			fmt.Fprintln(os.Stderr, "translator annotate:", err)
-			os.Exit(1)
-		}
+	emitP := func(p *tr.Pkg, fns []*fnCfg) *tr.Pkg {
 		for _, f := range fns {
 			s, err := translate(p, f)
+			if f.chk && f.optRes && !f.noCis {
+				args := func(c *fnCfg) string {
+					var out []string
+					for _, b := range c.binders {
+						out = append(out, strings.Fields(strings.TrimPrefix(b, "("))[0])
+					}
+					return strings.Join(out, " ")
+				}
+				if err == nil {
+					// no element read outside the loops: the checked variant never fails
+					s += fmt.Sprintf("Definition %s_chk (cis : Z) %s : res (%s) :=\n  Ok (%s cis %s).\n", f.name, strings.Join(f.binders, " "), f.result, f.name, args(f))
+				} else {
+					f2 := *f
+					f2.partial, f2.name, f2.result = true, f.name+"_chk", "res ("+f.result+")"
+					if s2, err2 := translate(p, &f2); err2 == nil {
+						s, err = s2+fmt.Sprintf("Definition %s (cis : Z) %s : %s :=\n  match %s cis %s with Ok r_ => r_ | Err _ => None end.\n",
+							f.name, strings.Join(f2.binders, " "), f.result, f2.name, args(&f2)), nil
+					}
+				}
+			}
 			if err != nil {
 				fmt.Fprintf(&text, "(* NOT TRANSLATED %s: %v *)\n\n", f.key, err)
 				fmt.Fprintf(os.Stderr, "translator annotate: %s: %v\n", f.key, err)
@@ -1356,9 +1796,32 @@ func main() {
 		}
 		return p
 	}
-	root := emit(".", "github.com/paulmach/osm", []*fnCfg{
-		{key: "updatesSortIndex.Less", name: "gen_less_index", params: "(a_i a_j : update)", result: "bool", elem: true, noCis: true},
-	})
+	emit := func(dir, path string, fns []*fnCfg) *tr.Pkg {
+		p, err := tr.Load(filepath.Join(repo, dir), path)
+		if err != nil {
+			fmt.Fprintln(os.Stderr, "translator annotate:", err)
+			os.Exit(1)
+		}
+		return emitP(p, fns)
+	}
+	rootPkg, err := tr.Load(filepath.Join(repo, "."), "github.com/paulmach/osm")
+	if err != nil {
+		fmt.Fprintln(os.Stderr, "translator annotate:", err)
+		os.Exit(1)
+	}
+	lessCfg, err := sortLess(rootPkg, "Updates.SortByIndex")
+	if err != nil {
+		fmt.Fprintf(&text, "(* NOT TRANSLATED Updates.SortByIndex: %v *)\n\n", err)
+		fmt.Fprintln(os.Stderr, "translator annotate:", err)
+		failed++
+		lessCfg = nil
+	}
+	var lessFns []*fnCfg
+	if lessCfg != nil {
+		lessCfg.name, lessCfg.result, lessCfg.elem, lessCfg.noCis = "gen_less_index", "bool", true, true
+		lessFns = append(lessFns, lessCfg)
+	}
+	root := emitP(rootPkg, lessFns)
 	// the constant goes to its own file: the case checkers depend on it alone
 	consts := "(* GENERATED by /verif/translator (cmd/annotate) from /repo — do not edit. *)\nFrom Coq Require Import ZArith List.\nImport ListNotations.\nOpen Scope Z_scope.\n\n"
 	if s, err := commitInfoStart(root); err != nil {
@@ -1380,8 +1843,8 @@ func main() {
 		{key: "absDuration", name: "gen_abs_duration", params: "(v_d : Z)", result: "Z", noCis: true},
 		{key: "timeThreshold", name: "gen_time_threshold", params: "(v_c : child) (v_esp : Z)", result: "Z"},
 		{key: "timeThresholdParent", name: "gen_time_threshold_parent", params: "(v_p : parent) (v_esp : Z)", result: "Z"},
-		{key: "ChildList.FindVisible", name: "gen_find_visible", params: "(v_cl : list child) (v_cid v_at v_eps : Z)", result: "option child", optRes: true},
-		{key: "ChildList.VersionBefore", name: "gen_version_before", params: "(v_cl : list child) (v_end : Z)", result: "option child", optRes: true},
+		{key: "ChildList.FindVisible", name: "gen_find_visible", params: "(v_cl : list child) (v_cid v_at v_eps : Z)", result: "option child", optRes: true, chk: true},
+		{key: "ChildList.VersionBefore", name: "gen_version_before", params: "(v_cl : list child) (v_end : Z)", result: "option child", optRes: true, chk: true},
 		{key: "nextVersionIndex", name: "gen_next_version_index",
 			params: "(v_current : option child) (v_child : list child) (v_nextParent : option parent) (v_opts : opts)",
 			optIdx: map[int]bool{0: true, 2: true}, result: "res Z", partial: true},
